@@ -98,7 +98,7 @@ func (g *gen) genFunc(typs []types.Type) error {
 		p.P("func %s(object struct {", name)
 		p.In()
 		for _, fieldStr := range fieldStrs {
-			p.P(fieldStr)
+			p.P("%s", fieldStr)
 		}
 		p.Out()
 		p.P("}) uint64 {")
